@@ -7,7 +7,7 @@ from reactivex.scheduler import HistoricalScheduler, VirtualTimeScheduler
 from reactivex.scheduler.scheduler import UTC_ZERO
 from reactivex.testing import TestScheduler
 
-from engine.api import I, harness, known
+from engine.api import I, harness, known, cover
 from engine.ticktime import TickScheduler, TickVTS
 
 # call codes: 0 schedule  1 schedule_relative(x-1)  2 schedule_absolute(x)  3 advance_to(x)  4 advance_by(x-1)
@@ -228,6 +228,49 @@ def h_historical(a, inst):
     codes = [inst["first"], inst["second"]] + [concretize(c, NCODES) for c in a.c]
     prog = [(codes[k], concretize(a.x[k], 3), (0, 2, 4)[concretize(a.b[k], 3)] if codes[k] <= 2 else 0) for k in range(L)]
     return check(prog, "hist")
+
+
+# ------------------------------------------------------------------ long runs: many actions at distinct times, then a tie
+@harness(instances=lambda tier: [{"kind": k, "base": b, "via": v} for k in ("hist", "vts", "test") for b in ((0, 96) if tier == "quick" else (0, 46, 96, 196))
+                                 for v in ("start", "advance_to")], dn=I(0, 10), tie=I(1, 3), timeout=(150, 900), stock=False)
+def h_long_run(a, inst):
+    """n = base + dn actions at n distinct due times followed by `tie` actions sharing one later due time (and one action they
+    schedule for 'now'): every action runs with the clock equal to its due time -- however many actions the run has already
+    executed (the anti-spin guard must count actions per instant, not per run)"""
+    from datetime import timedelta as _td
+    from engine.gate import concrete, untraced
+    from reactivex.internal.constants import UTC_ZERO as _Z
+    from reactivex.scheduler import HistoricalScheduler, VirtualTimeScheduler
+    from reactivex.testing import TestScheduler
+    n = inst["base"] + concrete(a.dn, 0, 10)
+    tie = concrete(a.tie, 1, 3)
+    with untraced():
+        hist = inst["kind"] == "hist"
+        sch = HistoricalScheduler() if hist else (VirtualTimeScheduler() if inst["kind"] == "vts" else TestScheduler())
+        T = (lambda k: _Z + _td(seconds=k)) if hist else (lambda k: float(k))
+        bad, ran = [], []
+
+        def mk(due, again):
+            def action(scheduler, state):
+                ran.append(due)
+                clock = scheduler.clock if not hist else scheduler.now
+                if clock != T(due):
+                    bad.append((due, clock))
+                if again:
+                    scheduler.schedule(mk(due, False))  # 'now': same due time
+            return action
+
+        for k in range(1, n + 1):
+            sch.schedule_absolute(T(k), mk(k, False))
+        for _ in range(tie):
+            sch.schedule_absolute(T(n + 5), mk(n + 5, True))
+        if inst["via"] == "start":
+            VirtualTimeScheduler.start(sch)
+        else:
+            sch.advance_to(T(n + 10))
+        ok = not bad and ran == list(range(1, n + 1)) + [n + 5] * (2 * tie)
+    cover("ran")
+    return ok
 
 
 ENCODED = ["reactivex/scheduler/virtualtimescheduler.py", "reactivex/internal/priorityqueue.py",
